@@ -14,16 +14,16 @@ from . import c02
 LEVEL = "proof"
 MANIFEST = {
     "category": "proof",
-    "technique": "contract-based deductive verification, relational mode on the real block code: VectorNeuronNonlinear, GroupNorm / LayerNorm (scalar path through the formula contract of eqx.nn.GroupNorm, vector path around the assumed contract of the eigh whitening), average_pool and unpool executed on x and g.x for every g, learnable parameters as free symbols, eps symbolic and positive; z3 with BigSum re-indexing for group statistics; max pooling and the eigh whitening: assumed relational contract + bounded native stand-in",
+    "technique": "contract-based deductive verification, relational mode on the real block code: VectorNeuronNonlinear, GroupNorm / LayerNorm (scalar path through the formula contract of eqx.nn.GroupNorm, vector path: GroupNorm against the contract of _group_norm_K1, and _group_norm_K1's real body (centring, covariance, eps, inverse square root, U S U^T) around the assumed contract of jnp.linalg.eigh), average_pool and unpool executed on x and g.x for every g, learnable parameters as free symbols, eps symbolic and positive; z3 with BigSum re-indexing for group statistics; max pooling: assumed relational contract + bounded native stand-in",
     "text": "For every g in B_d (d=2 all 8, d=3 class representatives), every accepted type incl. pseudo-scalars / pseudo-vectors, learnable scales, biases and mixing weights as arbitrary reals (not the initial values), symbolic positive eps and ALL spatial extents: block(g.x) == g.block(x) for the vector-neuron nonlinearity (channels 1..2 enumerated), group / layer normalisation (channel counts per group symbolic), average pooling and nearest-neighbour unpooling. Tests use the initial parameters (bias 0, scale 1) and eps = 0.",
-    "note": "KNOWN FINDING (see known_findings.json): the scalar path of GroupNorm/LayerNorm adds a per-channel bias to pseudo-scalars (0,1); with bias != 0 the reflections break equivariance. _group_norm_K1's eigh whitening is external numerics: assumed conjugation-equivariant, bounded natively; max_pool / MaxNormPool (argmax, unique maximum) bounded natively; translations by multiples of the patch length bounded natively; reals not floats; sqrt / activation uninterpreted",
+    "note": "KNOWN FINDING (see known_findings.json): the scalar path of GroupNorm/LayerNorm adds a per-channel bias to pseudo-scalars (0,1); with bias != 0 the reflections break equivariance. _group_norm_K1 is verified around an ASSUMED contract of jnp.linalg.eigh (eigen-decomposition of g C g^T is (LAM, g U diag(+-1)), every sign vector enumerated; simple spectrum; covariance positive semi-definite) and additionally bounded natively; max_pool / MaxNormPool (argmax, unique maximum) bounded natively; translations by multiples of the patch length bounded natively; reals not floats; sqrt / activation uninterpreted",
 }
 FUNCTIONS = ["ml.layers.VectorNeuronNonlinear.__call__", "ml.layers.GroupNorm.__init__", "ml.layers.GroupNorm.__call__", "ml.layers.LayerNorm.__init__",
              "functional_geometric_image.norm", "functional_geometric_image.average_pool", "GeometricImage.average_pool", "GeometricImage.unpool",
-             "MultiImage.average_pool", "ml.layers._group_norm_K1 (stubbed by its assumed relational contract)",
+             "MultiImage.average_pool", "ml.layers._group_norm_K1 (own obligations around the assumed eigh contract; GroupNorm calls it through that contract)",
              "functional_geometric_image.max_pool / ml.layers.MaxNormPool (bounded native stand-in only)"]
 TRUSTED = ["CPython for the concrete part", "structured-array engine, BigSum congruence / re-indexing", "z3 (uninterpreted-multiplication abstraction first, then NRA)",
-           "ASSUMED: eqx.nn.GroupNorm formula; jnp.linalg.eigh based whitening is conjugation-equivariant; C04 library contracts", "act_spec"]
+           "ASSUMED: eqx.nn.GroupNorm formula; jnp.linalg.eigh: decomposition of g C g^T is (LAM, g U diag(+-1)) (simple spectrum; repeated eigenvalues by the same spectral-calculus argument), eigenvalues of the covariance >= 0; C04 library contracts", "act_spec"]
 ASSUMPTIONS = ["reals not floats", "eps > 0; group variance + eps > 0", "scalar activation is an arbitrary function (uninterpreted)", "no norm ties for max pooling (statement's pre-condition) - max pooling is bounded only"]
 EXPLANATION = "Exhaustive in g (d=3: representatives), unbounded in parameters, extents, channel counts per group (normalisation); enumerated in types, channel counts (nonlinearity), groups."
 GRID = {"quick": "d=2 all g: VN types (0,0),(0,1),(1,0),(1,1),(2,0) x channels {1,2}; LayerNorm / GroupNorm(2 groups) on (0,0),(0,1),(1,0),(1,1); pools on (0,0),(1,1); d=3: 3 g",
@@ -56,6 +56,13 @@ def jobs(tier):
                 out.append(("gvc.props.c08", "ob_norm", dict(D=D, groups=groups, gi=gi, pseudo=pseudo)))
             for (k, p) in [(0, 0), (1, 1)]:
                 out.append(("gvc.props.c08", "ob_pool", dict(D=D, k=k, p=p, gi=gi)))
+            # the whitening helper itself, against ITS contract (GroupNorm above is verified against the same contract)
+            for groups in [1, 2]:
+                ts = list(itertools.product([1, -1], repeat=D))
+                if q and D == 3 and not (groups == 1 and gi == 9):
+                    ts = [ts[0], ts[2]]
+                for i in range(0, len(ts), 2):
+                    out.append(("gvc.props.c08", "ob_whiten", dict(D=D, groups=groups, gi=gi, ts=[list(t) for t in ts[i:i + 2]])))
     return out
 
 
@@ -151,6 +158,79 @@ def ob_norm(D, groups, gi, pseudo=True):
         o = guard(f"C08/{nm}/D={D},type={key},g#{gi}/ensures:equivariant", "ensures", lambda pre=pre, run=run, post=post: all_paths(pre, run, post), structure)
         o["replay"] = dict(scenario="norm", D=D, key=list(key), groups=groups, g=g.tolist())
         obs.append(o)
+    return obs
+
+
+def ob_whiten(D, groups, gi, ts):
+    """ml.layers._group_norm_K1 (mean-centring, covariance, eigh whitening) executed on x and on g.x:
+    _group_norm_K1(g.x) == g._group_norm_K1(x), around the ASSUMED contract of jnp.linalg.eigh (lib.eigh_model): the
+    decomposition of g C g^T is (LAM, g U diag(t)) for a sign vector t -- one obligation per t.  Everything else (grouping
+    reshape, group means, centring, covariance einsum, eps, inverse square root, U S U^T einsum, final reshape) is the real
+    code; means and covariance entries are sums over symbolic ranges registered as statistics (BigSum re-indexing by g)."""
+    Lm = L()
+    arr.ENUM_SMALL[0] = 3
+    g = np.asarray(c02.ops(D)[gi])
+    col, sgn = perm_of(g)
+    obs = []
+    for t in ts:
+        W = World(D)
+        eps = SReal(z3.Real("eps"))
+        pre = W.pre + [eps.e > 0]
+        m = sint("cpg", pre)
+        cA = Atom(mk(zi(m) * groups), "C")
+        X = arr.source("X", [cA] + W.spatial + [Atom(D)])
+        structure = dict(D=D, groups=groups, g=g.tolist(), eigenvector_signs=list(t))
+        info = {}
+
+        def run(X=X, eps=eps, t=t, info=info):
+            lib.STATS.clear()
+            bigsum.REINDEX[:] = [perm_of(g)]
+            lib.STAT_MODE[0] = True
+            lib.EIGH_CTX[0] = dict(col=col, sgn=sgn, t=list(t), calls={}, psd=True)
+            try:
+                y0 = Lm._group_norm_K1(D, X, groups, eps=eps)
+                yg = Lm._group_norm_K1(D, act_sym(X, D, 1, 0, g, lead=1), groups, eps=eps)
+                info["related"] = lib.EIGH_CTX[0].get("related", 0)
+                return arr.lift(y0), arr.lift(yg)
+            except BaseException:
+                lib.STAT_MODE[0] = False
+                lib.EIGH_CTX[0] = None
+                bigsum.REINDEX[:] = []
+                raise
+
+        def fin():
+            lib.STAT_MODE[0] = False
+            lib.EIGH_CTX[0] = None
+            bigsum.REINDEX[:] = []
+
+        def post(res, info=info):
+            y0, yg = res
+            try:
+                r = arr.compare(yg, act_sym(y0, D, 1, 0, g, lead=1), "_group_norm_K1(g.x) vs g._group_norm_K1(x)")
+                if r[0] != "proved" and info.get("related", 0) < groups:
+                    return r[0], "the covariance of g.x is not g C g^T (the eigh contract does not apply); " + str(r[1]), r[2]
+                return r
+            finally:
+                fin()
+
+        def post_bad(res):
+            y0, yg = res
+            try:
+                return arr.compare(yg, act_sym(y0, D, 1, 1, g, lead=1), "whitened block declared a pseudo-vector")
+            finally:
+                fin()
+
+        tn = "".join("+" if v > 0 else "-" for v in t)
+        o = guard(f"C08/_group_norm_K1/D={D},groups={groups},g#{gi},t={tn}/ensures:equivariant", "ensures",
+                  lambda pre=pre, run=run, post=post: all_paths(pre, run, post), structure)
+        fin()
+        o["replay"] = dict(scenario="whiten", D=D, groups=groups, g=g.tolist())
+        obs.append(o)
+        if t == ts[0] and groups == 1 and det_of(g) == -1:
+            obs.append(cover(f"C08/_group_norm_K1/D={D},g#{gi}/cover:pre", pre, structure))
+            obs.append(guard(f"C08/_group_norm_K1/D={D},g#{gi},t={tn}/canary:opposite-parity", "canary",
+                             lambda pre=pre, run=run, post_bad=post_bad: all_paths(pre, run, post_bad), structure))
+            fin()
     return obs
 
 
